@@ -12,6 +12,7 @@ import (
 	"path/filepath"
 	"sort"
 	"strconv"
+	"strings"
 	"sync"
 	"time"
 )
@@ -274,6 +275,60 @@ func LoadReplay(path string) (Violation, error) {
 	}
 	err = json.Unmarshal(b, &f)
 	return f.Violation, err
+}
+
+// RacePass reports whether this process is the free-running -race pass of a scheduler-based check.
+var racePass = flag.Bool("race-pass", false, "internal: free-running pass under the race detector")
+
+func RacePass() bool {
+	if !flag.Parsed() {
+		flag.Parse()
+	}
+	return *racePass
+}
+
+// RaceReport folds the output of the -race pass (written by bin/verif before the thorough run)
+// into the evidence; relevant() decides whether a reported race concerns state the property names.
+func (r *Run) RaceReport(relevant func(report string) bool) {
+	path := os.Getenv("VERIF_RACE_REPORT")
+	if path == "" || r.Tier != "thorough" {
+		return
+	}
+	b, err := os.ReadFile(path)
+	if err != nil {
+		r.Set("race_pass", "not run: "+err.Error())
+		return
+	}
+	out := string(b)
+	races := strings.Split(out, "WARNING: DATA RACE")
+	r.Set("race_pass_reports", len(races)-1)
+	r.Set("race_pass_summary", lastLines(out, 3))
+	n := 0
+	for _, rep := range races[1:] {
+		if relevant == nil || relevant(rep) {
+			n++
+			if n == 1 {
+				r.Violate("data-race", "the free-running -race pass of the same harness bodies reported a data race on state the property names", "race-pass", map[string]interface{}{"report": firstLines(rep, 40)}, nil, nil)
+			}
+		}
+	}
+	r.Assume("thorough tier: the same harness bodies were also run free-running (no scheduler) under the Go race detector")
+}
+
+func lastLines(s string, n int) string {
+	l := strings.Split(strings.TrimSpace(s), "\n")
+	if len(l) > n {
+		l = l[len(l)-n:]
+	}
+	return strings.Join(l, " | ")
+}
+
+func firstLines(s string, n int) string {
+	l := strings.Split(s, "\n")
+	if len(l) > n {
+		l = l[:n]
+	}
+	return strings.Join(l, "\n")
 }
 
 // Engine error: not a verdict about the property.
